@@ -61,7 +61,7 @@ def make_renderer(tag, handles):
 
 
 CONFIGS = ['default', 'all', 'table', 'none']
-ROUTES = ['Database()', 'PyDBML(src)', 'PyDBML.parse', 'PyDBML().parse']
+ROUTES = ['Database()', 'PyDBML(src)', 'PyDBML.parse', 'PyDBML().parse', 'PyDBML(Path)', 'PyDBML(open file)']
 
 
 def routing_model():
@@ -85,6 +85,21 @@ def build_configured(route, sqlc, dbmlc):
             db = PyDBML(text, **kw)
         elif route == 'PyDBML.parse':
             db = PyDBML.parse(text, **kw)
+        elif route in ('PyDBML(Path)', 'PyDBML(open file)'):
+            import os
+            import pathlib
+            import tempfile
+            fd, path = tempfile.mkstemp(prefix='verif_c16_', suffix='.dbml')
+            try:
+                with os.fdopen(fd, 'w', encoding='utf8') as f:
+                    f.write(text)
+                if route == 'PyDBML(Path)':
+                    db = PyDBML(pathlib.Path(path), **kw)
+                else:
+                    with open(path, encoding='utf8') as f:
+                        db = PyDBML(f, **kw)
+            finally:
+                os.unlink(path)
         else:
             db = PyDBML().parse(text, **kw)
     return db, kw
@@ -354,6 +369,35 @@ def check_once(p, m, case, delete_first_table=False):
     p['outcomes']['once/checked'] += 1
 
 
+DEGENERATE = {
+    'sticky-empty-text': lambda m: m['notes'][0].__setitem__('text', ''),
+    'second-sticky-empty': lambda m: m['notes'].append({'name': 'n2', 'text': ''}),
+    'project-bare': lambda m: m['project'].update(items=[], note=''),
+    'group-no-items': lambda m: m['groups'][0].update(items=[]),
+    'group-bare': lambda m: m['groups'][0].update(note='', color=None),
+    'group-second-empty': lambda m: m['groups'].append({'name': 'g2', 'items': [], 'note': '', 'color': None, 'comment': None}),
+    'enum-one-item-bare': lambda m: m['enums'][1].update(items=[{'name': 'z', 'note': '', 'comment': None}]),
+    'table-notes-empty': lambda m: [t.update(note='') for t in m['tables']],
+    'table-one-column': lambda m: m['tables'][2].update(columns=m['tables'][2]['columns'][:1]),
+    'no-project': lambda m: m.__setitem__('project', None),
+    'no-enum-use': lambda m: m['tables'][0]['columns'][2].update(type=['str', 'int'], default=['none']),
+    'refs-all-standalone': lambda m: [r.update(inline=False) for r in m['refs']],
+    'comments-everywhere': lambda m: ([t.update(comment='about ' + t['name']) for t in m['tables']], [e.update(comment='about ' + e['name']) for e in m['enums']],
+                                       [r.update(comment='about ref') for r in m['refs'] if not r['inline']], m['groups'][0].update(comment='about g'),
+                                       m['project'].update(comment='about p')),
+}
+
+
+def degenerate_model(names):
+    m = c10.start_model()
+    for n in names:
+        try:
+            DEGENERATE[n](m)
+        except Exception:
+            return None
+    return m
+
+
 # ------------------------------------------------------------------------------------------------
 # purity
 
@@ -496,6 +540,7 @@ def units(tier, seed):
     b = bounds(tier)
     for first in c01.DECLS:
         us.append(('once', first, b['once_bfs_depth']))
+    us.append(('once-degenerate', None, 2 if tier == 'quick' else 3))
     ncalls = len(render_calls(purity_db('api')))
     for route in ('api', 'parsed'):
         for first in range(ncalls):
@@ -517,6 +562,18 @@ def work(unit):
     elif mode == 'never':
         never_attached(p)
         p['samples'].append({'mode': 'never-attached'})
+    elif mode == 'once-degenerate':
+        names = sorted(DEGENERATE)
+        for d in range(0, b + 1):
+            for combo in itertools.combinations(names, d):
+                m = degenerate_model(combo)
+                if m is None:
+                    continue
+                check_once(p, m, {'mode': 'once-degenerate', 'tweaks': list(combo)})
+                p['states'] += 1
+                p['traces'] += 1
+                p['nontrivial'].add(digest(['once-degenerate', combo]))
+        p['samples'].append({'mode': 'once-degenerate', 'tweaks': list(combo)})
     elif mode == 'once':
         frontier = [(a,)]
         while frontier:
@@ -560,6 +617,8 @@ def replay(case):
     elif case['mode'] == 'once':
         m, order, ok = c01.state_model(tuple(case['seq']))
         check_once(p, m, {k: v for k, v in case.items() if k in ('mode', 'seq', 'after')}, delete_first_table='after' in case)
+    elif case['mode'] == 'once-degenerate':
+        check_once(p, degenerate_model(case['tweaks']), {k: v for k, v in case.items() if k in ('mode', 'tweaks')})
     else:
         firsts = {}
         ncalls = len(render_calls(purity_db('api')))
